@@ -431,7 +431,7 @@ def generic_lattice_check(prop, tier, seed, quick_fams, thorough_fams, sim_quick
     out.assumptions = BASE_ASSUMPTIONS
     if with_tess:
         # pipeline F: float inputs (general position, many-faced cells, masks) through the tess recorder + VTessTrace
-        res, verdicts, trace_file = tess_pipeline(tier, seed, prop, closepairs=(6 if tier == "quick" else 40) if prop == "C05" else 0)
+        res, verdicts, trace_file = tess_pipeline(tier, seed, prop, closepairs=(9 if tier == "quick" else 45) if prop == "C05" else 0)
         apply_tess(out, res, verdicts, trace_file, prop)
         out.coverage["rule"] += " || pipeline F: " + TESS_RULE
     return out
@@ -593,6 +593,14 @@ def tess_pipeline(tier, seed, tag, count=None, nmax=None, closepairs=0):
 F11_SITES = ("No suitable vertex found to extend boundary!", "Degenerate 3-plane intersection!")
 
 
+def is_F14(inp, message):
+    """Signature of known finding F14: the harness family `cosphere` - 200..400 generators on a common sphere (Fibonacci lattice of
+    constant radius), with or without a generator at the centre; a panic must come from one of the two sites guarding broken topology."""
+    if inp.get("kind") != "cosphere":
+        return False
+    return message is None or any(sx in message for sx in F11_SITES)
+
+
 def is_F11(inp, message):
     """Signature of known finding F11: two generators closer than 1e-7 of the box scale, or three generators mutually closer than 1e-4
     of it (active subspace, nearest image); a panic must come from one of the two sites guarding broken topology."""
@@ -606,14 +614,15 @@ def apply_tess(out, res, verdicts, trace_file, prop):
     lines_ok = 0
     bad_lines = {}
     close_ids = {m["id"] for m in res.get("inputs_meta", []) if m["minsep"] < 1e-7 or m.get("trisep", 1.0) < 1e-4}
+    cosph_ids = {m["id"] for m in res.get("inputs_meta", []) if m.get("kind") == "cosphere"}
     for v in verdicts:
         mine = [x for x in v["failed"] if prop in x[x.rfind("["):]]
         if not v["failed"]:
             lines_ok += 1
-        if v["id"] in close_ids:
-            # F11 territory (two generators closer than 1e-7 of the box): what the library returns there is attributed to the finding
+        if v["id"] in close_ids or v["id"] in cosph_ids:
+            # F11 / F14 territory: what the library returns there is attributed to the finding
             if v["failed"] and prop == "C05":
-                out.known_hit("F11", {"trace_line": v["line"], "input_id": v["id"], "failed": v["failed"]})
+                out.known_hit("F14" if v["id"] in cosph_ids else "F11", {"trace_line": v["line"], "input_id": v["id"], "failed": v["failed"]})
             continue
         for x in mine:
             bad_lines.setdefault(x, []).append(v["line"])
@@ -630,8 +639,8 @@ def apply_tess(out, res, verdicts, trace_file, prop):
     f11_ids = set()
     for f in res["failures"]:
         if f["prop"] == prop or (prop == "C05" and f["prop"] in ("C01", "C02", "C03", "C04")):
-            if is_F11(f["input"], None):
-                out.known_hit("F11", f)
+            if is_F11(f["input"], None) or is_F14(f["input"], None):
+                out.known_hit("F14" if is_F14(f["input"], None) else "F11", f)
                 f11_ids.add(f["input"]["id"])
                 continue
             if f["prop"] != prop:
@@ -640,8 +649,8 @@ def apply_tess(out, res, verdicts, trace_file, prop):
                                                                   json.dumps(f["mask"])[:80], json.dumps(f["detail"])[:300]), f)
     for p in res["panics"]:
         if prop == "C05":
-            if is_F11(p["input"], p["message"]):
-                out.known_hit("F11", p)
+            if is_F11(p["input"], p["message"]) or is_F14(p["input"], p["message"]):
+                out.known_hit("F14" if is_F14(p["input"], p["message"]) else "F11", p)
                 f11_ids.add(p["input"]["id"])
                 continue
             out.violation("panic on a valid general-position input: %s" % p["message"], p)
